@@ -1,8 +1,200 @@
-(* C14 — placeholder while the proofs are being written *)
+(* C14 — Text operations count characters; % formatting follows the directives.
+   Only statements, closed by [exact], and their assumptions.
+   Texts are the UTF-8 byte strings [encode_all cps] of lists of Unicode scalar values. *)
 From Coq Require Import List ZArith Bool.
 Import ListNotations.
 From Zn.model Require Import Decode FormatNum TextOps Format.
+From Zn.proofs Require Import DecodeProofs TextOpsProofs FormatProofs FormatNumProofs.
 Open Scope Z_scope.
 
-Example C14_slice_pinned_splits : str_exec_slice_pinned [228;189;160;229;165;189] 1 1 = SOk [228].
+(* ---------------- Part A: text operations ------------------------------------------------ *)
+
+(* 长度 = number of characters = number of elements of 字符组; 字符组 = the characters, one per element *)
+Theorem C14_length_chars_consistent : forall cps, Forall scalar cps ->
+  str_get_length (encode_all cps) = Z.of_nat (length cps) /\
+  Z.of_nat (length (str_get_char_array (encode_all cps))) = str_get_length (encode_all cps) /\
+  str_get_char_array (encode_all cps) = map (fun c => encode_all [c]) cps /\
+  concat (str_get_char_array (encode_all cps)) = encode_all cps.
+Proof. exact length_chars_consistent. Qed.
+Print Assumptions C14_length_chars_consistent.
+
+(* 取样 i j (any integers; negative = from the end) is exactly characters i..j of the text and of 字符组 *)
+Theorem C14_slice_is_sublist : forall cps i j r, Forall scalar cps ->
+  str_exec_slice (encode_all cps) i j = SOk r ->
+  let n := Z.of_nat (length cps) in
+  r = encode_all (sublist cps (norm_index n i) (norm_index n j)) /\
+  r = concat (sublist (str_get_char_array (encode_all cps)) (norm_index n i) (norm_index n j)).
+Proof. exact slice_is_sublist. Qed.
+Print Assumptions C14_slice_is_sublist.
+
+(* complete behaviour for ALL index pairs: an exception iff start < 1 or end > length, else the sublist; never a Go panic *)
+Theorem C14_slice_total : forall cps i j, Forall scalar cps ->
+  let n := Z.of_nat (length cps) in
+  let i' := norm_index n i in
+  let j' := norm_index n j in
+  str_exec_slice (encode_all cps) i j =
+    if (i' <? 1) || (j >? n) then SExc else SOk (encode_all (sublist cps i' j')).
+Proof. exact slice_total. Qed.
+Print Assumptions C14_slice_total.
+
+(* the result is a whole-character text made of characters of the source *)
+Theorem C14_slice_never_splits : forall cps i j, Forall scalar cps ->
+  (exists sub, Forall scalar sub /\ str_exec_slice (encode_all cps) i j = SOk (encode_all sub) /\
+               str_get_char_array (encode_all sub) = map (fun c => encode_all [c]) sub /\
+               incl sub cps)
+  \/ str_exec_slice (encode_all cps) i j = SExc.
+Proof. exact slice_never_splits. Qed.
+Print Assumptions C14_slice_never_splits.
+
+(* 分隔 on the bytes of the Go string = splitting the character list (no piece ends inside a character) *)
+Theorem C14_split_never_splits : forall s sep, Forall scalar s -> Forall scalar sep ->
+  str_exec_split (encode_all s) (encode_all sep) =
+  match split_cps s sep with
+  | SOk ps => SOk (map encode_all ps)
+  | SExc => SExc | SCrash => SCrash | SOutOfFuel => SOutOfFuel
+  end.
+Proof. exact split_bytes_is_split_chars. Qed.
+Print Assumptions C14_split_never_splits.
+
+(* the pieces joined by the separator give back the text; no piece contains the separator (every cut is at the
+   first occurrence: cut_pre_none); the loop never runs out of fuel *)
+Theorem C14_split_spec : forall s sep, Forall scalar s -> Forall scalar sep -> sep <> [] ->
+  exists ps, str_exec_split (encode_all s) (encode_all sep) = SOk (map encode_all ps) /\
+             split_cps s sep = SOk ps /\
+             ps <> [] /\ join_sep sep ps = s /\ Forall (fun p => contains p sep = false) ps.
+Proof. exact split_spec. Qed.
+Print Assumptions C14_split_spec.
+
+Theorem C14_split_empty_separator : forall s, Forall scalar s ->
+  str_exec_split (encode_all s) [] = SOk (str_get_char_array (encode_all s)).
+Proof. exact split_empty_is_chars. Qed.
+Print Assumptions C14_split_empty_separator.
+
+(* ---------------- Part B: the formatter ---------------------------------------------------- *)
+
+(* the scanner with its index triples accepts every template of  tpl ::= (lit | '{' directive '}')*  ... *)
+Theorem C14_scanner_accepts_grammar : forall segs idx stack cnt, wf_segs segs ->
+  scan_loop (unparse segs) idx SBegin stack cnt =
+  Some (last_state segs, stack ++ enc_open idx segs, cnt + nholes segs).
+Proof. exact scan_accepts. Qed.
+Print Assumptions C14_scanner_accepts_grammar.
+
+(* ... and nothing else: for ALL templates, acceptance yields a parse of the grammar; the parse is unique *)
+Theorem C14_scanner_refines_template_grammar : forall tpl st stack cnt,
+  scan_loop tpl 0 SBegin [] 0 = Some (st, stack, cnt) -> st <> SFormat ->
+  exists segs, wf_segs segs /\ unparse segs = tpl.
+Proof. exact scanner_sound. Qed.
+Print Assumptions C14_scanner_refines_template_grammar.
+
+Theorem C14_template_parse_unique : forall segs1 segs2, wf_segs segs1 -> wf_segs segs2 ->
+  unparse segs1 = unparse segs2 -> segs1 = segs2.
+Proof. exact parse_unique. Qed.
+Print Assumptions C14_template_parse_unique.
+
+(* k-th placeholder -> k-th argument rendered per directive, literals verbatim (render_segs), for every template of
+   the grammar, every argument list, every %v rendering rv *)
+Theorem C14_format_spec : forall rv segs params, wf_segs segs ->
+  format_string rv (unparse segs) params =
+  if Z.of_nat (length params) =? Z.of_nat (length (holes segs)) then render_segs rv segs params else FErr EUnmatch.
+Proof. exact format_string_spec. Qed.
+Print Assumptions C14_format_spec.
+
+(* exactly the documented error conditions, for ALL templates and argument lists: malformed template iff not in the
+   grammar; otherwise count mismatch, otherwise the first placeholder (left to right) that cannot be rendered *)
+Theorem C14_format_errors : forall rv tpl params,
+  (exists segs, wf_segs segs /\ unparse segs = tpl /\
+     format_string rv tpl params =
+       if Z.of_nat (length params) =? Z.of_nat (length (holes segs)) then render_segs rv segs params else FErr EUnmatch)
+  \/ ((~ exists segs, wf_segs segs /\ unparse segs = tpl) /\ format_string rv tpl params = FErr EInvalidTemplate).
+Proof. exact format_string_total. Qed.
+Print Assumptions C14_format_errors.
+
+Theorem C14_format_invalid_template_iff : forall rv tpl params,
+  format_string rv tpl params = FErr EInvalidTemplate <-> ~ exists segs, wf_segs segs /\ unparse segs = tpl.
+Proof. exact format_invalid_template_iff. Qed.
+Print Assumptions C14_format_invalid_template_iff.
+
+(* per placeholder: {} displays, {#...} needs a number and a well-formed directive *)
+Theorem C14_placeholder_errors : forall rv d e,
+  match d, e with
+  | [], EOther => element_to_string rv d e = FErr EParamType
+  | [], _ => element_to_string rv d e = FOk (display rv e)
+  | 35 :: rest, ENum bits =>
+      element_to_string rv d e =
+      match parse_directive rest with Some dr => FOk (render_directive dr bits) | None => FErr EBadDirective end
+  | 35 :: _, _ => element_to_string rv d e = FErr ENotNumber
+  | _ :: _, _ => element_to_string rv d e = FErr EBadDirective
+  end.
+Proof. exact element_to_string_errors. Qed.
+Print Assumptions C14_placeholder_errors.
+
+(* slicing the rune array by the triples never panics, on any template *)
+Theorem C14_format_no_crash : forall rv tpl params, format_string rv tpl params <> FCrash.
+Proof. exact format_string_no_crash. Qed.
+Print Assumptions C14_format_no_crash.
+
+(* the directive machine = '+'? ('.' digit* )? ('E'|'%')?  with precision <= MAXPREC, flags as written *)
+Theorem C14_directive_machine_is_documented_grammar_sound : forall cs d, parse_directive cs = Some d ->
+  exists plus fixed suf, cs = directive_text plus fixed suf /\
+    (match fixed with Some ds => all_digits ds /\ dec_value ds 0 <= MAXPREC | None => True end) /\
+    d = directive_of plus fixed suf.
+Proof. exact directive_sound. Qed.
+Print Assumptions C14_directive_machine_is_documented_grammar_sound.
+
+Theorem C14_directive_machine_is_documented_grammar_complete : forall plus fixed suf,
+  (match fixed with Some ds => all_digits ds /\ dec_value ds 0 <= MAXPREC | None => True end) ->
+  parse_directive (directive_text plus fixed suf) = Some (directive_of plus fixed suf).
+Proof. exact directive_complete. Qed.
+Print Assumptions C14_directive_machine_is_documented_grammar_complete.
+
+Theorem C14_directive_precision_bounded : forall plus ds suf, all_digits ds -> dec_value ds 0 > MAXPREC ->
+  parse_directive (directive_text plus (Some ds) suf) = None.
+Proof. exact directive_precision_bounded. Qed.
+Print Assumptions C14_directive_precision_bounded.
+
+(* the arithmetic of the restated renderings: the integer printed by %.Nf is nearest to |x|*10^N, ties to even, and
+   the digit string printed for an integer denotes that integer (the layout code around them is validated differentially) *)
+Theorem C14_fixed_render_rounding : forall m e prec, 0 <= m -> 0 <= prec ->
+  let '(num, den) := ratio m e in
+  let q := rne_div (num * 10 ^ prec) den in
+  0 < den /\
+  Z.abs (2 * q * den - 2 * (num * 10 ^ prec)) <= den /\
+  (Z.abs (2 * q * den - 2 * (num * 10 ^ prec)) = den -> Z.even q = true).
+Proof. exact fixed_rounding. Qed.
+Print Assumptions C14_fixed_render_rounding.
+
+Theorem C14_decimal_digits_denote : forall n, 0 <= n ->
+  val_chars (dec_digits n) = n /\ Forall (fun c => 48 <= c <= 57) (dec_digits n).
+Proof. exact dec_digits_value. Qed.
+Print Assumptions C14_decimal_digits_denote.
+
+(* ---------------- non-vacuity ------------------------------------------------------------------ *)
+
+(* the pinned, byte-indexed 取样 splits 你 *)
+Example C14_slice_pinned_splits : str_exec_slice_pinned (encode_all [0x4F60; 0x597D]) 1 1 = SOk [0xE4].
 Proof. vm_compute. reflexivity. Qed.
+Example C14_slice_example : str_exec_slice (encode_all [0x61; 0x1F600; 0x4F60; 0x301]) 2 (-2) = SOk (encode_all [0x1F600; 0x4F60]).
+Proof. vm_compute. reflexivity. Qed.
+Example C14_split_example :
+  str_exec_split (encode_all [0x4F60; 0x2C; 0x597D; 0x2C; 0x2C]) (encode_all [0x2C]) = SOk [encode_all [0x4F60]; encode_all [0x597D]; []; []].
+Proof. vm_compute. reflexivity. Qed.
+(* “HK{#.2E}-{}” % 【13.208945、“香港”】 = “HK1.32E+01-香港” (from TestFormatStr_Number) *)
+Example C14_format_example :
+  format_string (fun _ => []) [72;75;123;35;46;50;69;125;45;123;125] [ENum 0x402A6AFAD6D4B8BD; EStr [39321;28207]]
+  = FOk [72;75;49;46;51;50;69;43;48;49;45;39321;28207].
+Proof. vm_compute. reflexivity. Qed.
+(* “{#.99999999999999999999}” % 【1.5】 is an error *)
+Example C14_format_precision_overflow :
+  format_string (fun _ => []) ([123;35;46] ++ repeat 57 20 ++ [125]) [ENum 0x3FF8000000000000] = FErr EBadDirective.
+Proof. vm_compute. reflexivity. Qed.
+Example C14_format_errors_example :
+  format_string (fun _ => []) [97;123;98] [] = FErr EInvalidTemplate /\
+  format_string (fun _ => []) [123;125] [] = FErr EUnmatch /\
+  format_string (fun _ => []) [123;35;125] [EStr [97]] = FErr ENotNumber /\
+  format_string (fun _ => []) [123;35;46;50;43;125] [ENum 0] = FErr EBadDirective.
+Proof. vm_compute. repeat split. Qed.
+Example C14_render_examples :
+  render_directive (directive_of false (Some [49]) SufPct) 0x3FEC083126E978D5 = [56;55;46;54;37] /\   (* 0.876 {#.1%} 87.6% *)
+  render_directive (directive_of true None SufNone) 0x4014000000000000 = [43;53] /\                    (* 5 {#+} +5 *)
+  render_directive (directive_of false None SufNone) 0x405EDD3C07EE0B0B = [49;50;51;46;52;53;55].      (* 123.456789 {#} 123.457 *)
+Proof. vm_compute. repeat split. Qed.
